@@ -690,3 +690,5 @@ META = {
     'technique': 'ordering-domain tabulation of the restore kernels + CFG must-pass-through (uuid gate, saved position) '
                  '+ writer/reader key table',
 }
+
+META['explanation'] += ' ' + 'Further: load_save restores verbatim; the trainer stamps every ruleset with a fresh uuid4/uuid1 (a name-based uuid defeats the gate); no list of the loaded grammar is ordered by a set; exact-float discipline; restore runs under the 10**6 frame bound and insert_queue pushes unconditionally.'
